@@ -928,6 +928,13 @@ class Interp:
                     return out
                 if meth in ("to_be", "from_be", "to_le", "from_le", "swap_bytes"):
                     return [(st, mk_obj("%s(%s)" % (meth, show(xs[0])), ity))]
+                if meth == "wrapping_sub" and tr[0] == 0 and len(xs) == 2:
+                    d = xs[0].lin.sub(xs[1].lin)
+                    if len(d.t) <= 2 and all(abs(k_) == 1 for k_ in d.t.values()) and sum(d.t.values()) in (0, 1, -1):
+                        out = []
+                        for s2, ge in self.fork_cmp(st, "ge", xs[0].lin, xs[1].lin):
+                            out.append((s2, mk_int(d if ge else d.add(Lin.const(tr[1] + 1)), ty=ity)))
+                        return out
                 if meth in ("wrapping_add", "wrapping_sub"):
                     return [(st, mk_obj("%s(%s, %s)" % (meth, show(xs[0]), show(xs[1])), ity))]
                 if meth in ("is_ascii_digit",) and len(xs) == 1:
